@@ -14,11 +14,15 @@ from .rec_pipeline import DEFAULT_H, default_cfg, rec_evaluate, rec_match
 
 C03_CLAUSES = ["T_Terminates", "T_PredFunctional", "T_RefInjective", "T_PairsOverlap", "T_PairsBeat",
                "T_Maximal", "T_Stable", "T_LabelMapAllowed", "T_Monotone"]
-C04_CLAUSES = ["T_RefUnchanged", "T_FgPreserved", "T_NoSplit", "T_FreshDistinct", "T_MatchedCarryRef"]
+# T_PairsOverlap / T_LabelMapAllowed belong to C04 as well: an unmatched prediction that receives a
+# reference label shows up as an exhibited pair that no allowed matching contains
+C04_CLAUSES = ["T_RefUnchanged", "T_FgPreserved", "T_NoSplit", "T_FreshDistinct", "T_MatchedCarryRef", "T_PairsOverlap",
+               "T_LabelMapAllowed"]
 C14_CLAUSES = ["T_Terminates", "T_PredFunctional", "T_PairsOverlap", "T_SeededBySingle", "T_FinalAtLeastSeed",
                "T_LabelMapAllowed"]
 EVAL_C01 = ["T_Completes", "T_Counts", "T_Tp", "T_FpFn", "T_Lists", "T_Rq", "T_Sq", "T_Std", "T_Ambiguous"]
-EVAL_C02 = ["T_BookCounts", "T_BookLists", "T_BookRq", "T_BookSq", "T_BookStd", "T_BookPq", "T_BookRanges"]
+EVAL_C02 = ["T_BookCounts", "T_BookLists", "T_BookRq", "T_BookSq", "T_BookStd", "T_BookPq", "T_BookRanges", "T_BookDecision",
+            "T_Counts", "T_Tp", "T_FpFn"]
 EVAL_C08 = ["T_Completes", "T_Counts", "T_Tp", "T_FpFn", "T_ZeroTpSq", "T_ZeroTpStd"]
 EVAL_C13 = ["T_Completes", "T_Global"]
 
@@ -364,7 +368,9 @@ def check_C02(tier: str, v: Verdict):
     for _ in range(300 if tier == "quick" else 3000):
         pred, ref = gen.rand_unmatched_pair(rng, max_vox=48)
         recs.append(rec_evaluate(pred, ref, readme, meta={"gen": "readme-config"}))
-    recs += directly_constructed_results(rng, 400 if tier == "quick" else 4000)
+    direct = directly_constructed_results(rng, 400 if tier == "quick" else 4000)
+    validate_traces(v, "Trace_Eval", [x for x in EVAL_C02 if x.startswith("T_Book")], direct, site_eval, what_fn=what_eval)
+    v.cov["directly_constructed_results"] = len(direct)
     _count_cov(v, recs, _eval_key, lambda r: r["out"] == "ok" and r["res"]["npred"] + r["res"]["nref"] > 0)
     v.cov["rule"] = ("evaluate() over label-map pairs x input types x matchers (incl. many-to-one, merge) x decision metric/threshold, "
                      "the README configuration, and directly constructed PanopticaResult objects; distinct by (arrays, config); "
